@@ -126,6 +126,77 @@ def rw_kind_rule(rep, fp, vals):
     return n
 
 
+def tfd_kind_rule(rep, fp):
+    """delete / disable of a timer or a process watch: 'nothing registered' (ENOENT) is decided from the descriptor packed in
+    tpdata AND from the registered kind - the descriptor field alone also holds the pidfd of a process watch / the timerfd
+    of a timer, so del(PROC) on a timer record would close the timer."""
+    n = 0
+    preds = {}
+    for b in fp.reachable_blocks():
+        for s_ in fp.blocks[b].rsucc():
+            preds.setdefault(s_, []).append(b)
+    for rpos, rnode in fp.returns():
+        if "ENOENT" not in core.macros(rnode.get("e") or {}):
+            continue
+        pcs = [b for b in preds.get(rpos[0], []) if fp.blocks[b].cond is not None]
+        tfd_tests = [b for b in pcs if any(core.is_ref(y) and y.get("dk") == "local" and const_val(y) is None for y, _ in _walk(fp.blocks[b].cond))
+                     and any(const_val(y) == -1 for y, _ in _walk(fp.blocks[b].cond))]
+        if not tfd_tests:
+            continue
+        n += 1
+        kind = any(any(y.get("k") == "mem" and y["f"] == "tpdata" for y, _ in _walk(fp.blocks[b].cond)) for b in pcs)
+        desc = "tpt_ev_post: the ENOENT exit at line %s also tests the registered kind" % rnode.get("ln")
+        (rep.proved if kind else rep.violated)("R-KIND", fp, "tfd-kind-checked@%d" % n, desc, "" if kind else
+                                               "only `-1 == tfd` is tested: del(TP_EV_PROC) on a periodic timer returns 0 and closes the timer, del(TP_EV_TIMER) on a process "
+                                               "watch closes the pidfd and the child's exit is never reported", rnode.get("ln"))
+    return n
+
+
+def tpdata_snapshot_rule(rep, fl):
+    """tpt_loop: the decision to run the callback and what it is told come from ONE read of tpdata that is refused when it
+    is 0 (a record deleted / a one-shot completed by another worker of the shared virtual thread reads as 'persistent
+    TP_EV_READ, enabled' otherwise)."""
+    # reads of tp_udata->tpdata in the loop, outside stores
+    reads = []
+    for pos, root, x, ps in fl.nodes():
+        if x.get("k") == "mem" and x["f"] == "tpdata":
+            is_store = any(q.get("k") == "bin" and (q["op"] == "=" or q["op"] in ("|=", "&=")) and core.strip_casts(q["x"]) is x for q in ps)
+            if not is_store:
+                reads.append((pos, x))
+    cbs = [pos for pos, root, c, ps in fl.calls() if c.get("fn") is None and "cb_func" in key(c)]
+    if not cbs:
+        raise driver.AnalysisBroken("tpt_loop: callback call not found")
+    desc = "tpt_loop: one look at tpdata decides and describes the callback; a zero value is skipped"
+    # the snapshot: a local assigned from the field
+    snaps = [(pos, x) for pos, root, x, ps in fl.nodes() if x.get("k") == "bin" and x["op"] == "=" and core.is_ref(core.strip_casts(x["x"])) and
+             core.strip_casts(x["x"]).get("dk") == "local" and any(y.get("k") == "mem" and y["f"] == "tpdata" for y, _ in _walk(x["y"]))]
+    if not snaps:
+        rep.violated("R-SNAP", fl, "tpdata-read-once", desc, "tp_udata->tpdata is read %d times between the event fetch and the callback: another worker's completion of a one-shot "
+                     "timer on the virtual thread sets it to 0 in between, and 0 decodes as an enabled persistent TP_EV_READ - the callback runs again with TP_EV_READ" % len(reads))
+        return 1
+    # the snapshot is the assignment that dominates every other read
+    snaps = [t for t in snaps if all(fl.pos_dominates(t[0], p_) or p_ == t[0] or any(y is x for y, _ in _walk(t[1]["y"])) for p_, x in reads)] or snaps[:1]
+    spos, sx = snaps[0]
+    sid = core.strip_casts(sx["x"])["id"]
+    later = [p_ for p_, x in reads if fl.pos_dominates(spos, p_) and p_ != spos and not any(y is x for y, _ in _walk(sx["y"]))]
+    zero = False
+    for bid in fl.reachable_blocks():
+        c = fl.blocks[bid].cond
+        if c is None or not fl.dominates(spos[0], bid):
+            continue
+        for y, _ in _walk(c):
+            if y.get("k") == "bin" and y["op"] in ("==", "!=") and any(core.is_ref(core.strip_casts(y[k_])) and core.strip_casts(y[k_]).get("id") == sid for k_ in ("x", "y")) \
+               and any(const_val(y[k_]) == 0 for k_ in ("x", "y")):
+                zero = True
+    if later:
+        rep.violated("R-SNAP", fl, "tpdata-read-once", desc, "the field is read again after the snapshot (line %s)" % fl.blocks[later[0][0]].elems[later[0][1]].get("ln"))
+    elif not zero:
+        rep.violated("R-SNAP", fl, "tpdata-read-once", desc, "the snapshot is not tested against 0")
+    else:
+        rep.proved("R-SNAP", fl, "tpdata-read-once", desc, "snapshot at line %s, tested against 0" % sx.get("ln"))
+    return 1
+
+
 def refuse_rule(rep, u, vals, opt):
     fv = tp.need(u, "tpt_ev_validate")
     rep.functions.add(fv.name)
@@ -220,6 +291,82 @@ def add_target_rule(rep, u):
             (rep.proved if ok else rep.violated)("R-OUTDEF", fn, "thread-stored-after-test", desc, "" if ok else
                                                  "stored before any test: add(NULL thread) returns EINVAL but the live registration now has tpt = NULL - del fails and "
                                                  "the next event dereferences it", x.get("ln"))
+    return n
+
+
+def refused_add_rule(rep, u):
+    """an add that is refused by the validator leaves the record on the thread it was on: the store of the new thread is
+    either behind the successful validation, or the refusing exit puts the previous value back.  A function that stores the
+    thread and then hands the validation to a wrapper cannot do either."""
+    from rules import r_mpt
+    # functions that (transitively) call the validator
+    validates = {f.name for f in u.function_list if f.has_cfg and any(c.get("fn") == "tpt_ev_validate" for _p, _r, c, _ps in f.calls())}
+    changed = True
+    while changed:
+        changed = False
+        for f in u.function_list:
+            if f.has_cfg and f.relfile() == tp.TP_C and f.name not in validates and any(c.get("fn") in validates for _p, _r, c, _ps in f.calls()):
+                validates.add(f.name)
+                changed = True
+    n = 0
+    for fn in u.function_list:
+        if fn.relfile() != tp.TP_C or not fn.has_cfg or not fn.name.startswith("tpt_ev_add"):
+            continue
+        stores = []
+        restores = []
+        for pos, root, x, ps in fn.nodes():
+            if x.get("k") == "bin" and x["op"] == "=" and core.strip_casts(x["x"]).get("k") == "mem" and core.strip_casts(x["x"])["f"] == "tpt":
+                src = core.strip_casts(x["y"])
+                if src.get("k") == "ref" and src.get("dk") == "parm":
+                    stores.append(pos)
+                elif src.get("k") == "ref" and src.get("dk") == "local":
+                    restores.append(pos)
+        for S in stores:
+            n += 1
+            rep.functions.add(fn.name)
+            desc = "%s: a refused add leaves the record's thread as it was" % fn.name
+            res_ids = core.result_locals(fn, {"tpt_ev_validate"})
+            direct = [p_ for p_, _r, c, _ps in fn.calls({"tpt_ev_validate"})]
+            if direct and all(fn.pos_dominates(d_, S) for d_ in direct):
+                # stored after the validation: must be behind its success edge
+                rep.proved("R-OUTDEF", fn, "refused-add-keeps-thread", desc, "the thread is stored after the validation")
+                continue
+            if not direct:
+                later = sorted({c.get("fn") for p_, _r, c, _ps in fn.calls() if c.get("fn") in validates and (p_[0] in fn.reach_from([S[0]]) or (p_[0] == S[0] and p_[1] > S[1]))})
+                if later:
+                    rep.violated("R-OUTDEF", fn, "refused-add-keeps-thread", desc, "the new thread is stored, then %s validates and may refuse: add(B, flags 0x8) on a record that lives "
+                                 "on thread A returns EINVAL and leaves tpt = B; the delete goes to B's epoll (ENOENT) and A keeps calling back" % later[0])
+                else:
+                    rep.proved("R-OUTDEF", fn, "refused-add-keeps-thread", desc, "no validation after the store")
+                continue
+            # direct validation after the store: the refusing edge restores before it returns
+            ok = True
+            found = False
+            for bid in fn.reachable_blocks():
+                c = fn.blocks[bid].cond
+                if c is None:
+                    continue
+                atom = None
+                for y, _ in _walk(c):
+                    if (y.get("k") == "ref" and y.get("id") in res_ids) or (y.get("k") == "call" and y.get("fn") == "tpt_ev_validate"):
+                        atom = y
+                if atom is None:
+                    continue
+                found = True
+                s_, known = r_mpt.edge_for_value(fn, bid, c, atom, 22)
+                if not known or s_ is None:
+                    ok = False
+                    continue
+                cut = {r_[0] for r_ in restores}
+                if s_ in cut:
+                    continue
+                reach = fn.reach_from([s_], avoid=cut) | {s_}
+                if any(p_[0] in reach for p_, _e in fn.returns()):
+                    ok = False
+            if not found:
+                ok = False
+            (rep.proved if ok else rep.violated)("R-OUTDEF", fn, "refused-add-keeps-thread", desc, "the refusing exit restores the previous thread" if ok else
+                                                 "a refusing exit of the validation returns without putting the previous thread back")
     return n
 
 
